@@ -367,6 +367,18 @@ func c18Run(c *core.Ctx) {
 		nR++
 	}
 	res.PerOp["rids"] += nR
+	// ---- row ids through the real index wrappers ---------------------------------------------------
+	// (the wrappers carry their own copies of the value packing: the B-tree cuts the row id to 6 bytes on
+	// insert and widens it again in ScanKey and, separately, in its range iterator)
+	if c.Shard == 0 {
+		for _, kind := range []string{"skip", "btree", "hash"} {
+			if f := guarded("rid-through-index/"+kind, func() *c18Fail { return c18ThroughIndex(kind) }); f != nil {
+				fail(f, kind)
+			}
+			res.PerOp["rids-through-"+kind+"-index"] += int64(len(c18IndexRids(kind)))
+		}
+		res.Outcome("rid:through-index(skip,btree,hash;lookup+range)")
+	}
 	total := nInt + nF + nS + nR
 	res.States += total
 	res.Transitions += total
@@ -396,7 +408,7 @@ func init() {
 		Assume: []string{
 			"index containers compare encoded keys bytewise (Go string comparison of the varchar value in the skip list, bytes.Compare in the B-link tree)",
 			"strings contain no NUL byte (property); B-tree varchar keys are limited to MaxKeyLen=50 bytes including 14 bytes of overhead and row id",
-			"the 6-byte row id form of the B-tree index is mirrored from btree_index.go (its real use is covered by C17)",
+			"the 6-byte row id form of the B-tree index is mirrored from btree_index.go for the enumeration of the whole 6-byte domain; in addition row ids over every byte lane go through the real skip-list, B-tree and hash index wrappers (insert, point lookup, range iterator)",
 		},
 		Run: c18Run,
 		Replay: func(raw json.RawMessage) (string, bool) {
@@ -415,6 +427,10 @@ func init() {
 				var b uint64
 				json.Unmarshal(rp.Input, &b)
 				f = c18Float(uint32(b))
+			case strings.HasPrefix(rp.Clause, "rid-through-index"):
+				var kind string
+				json.Unmarshal(rp.Input, &kind)
+				f = c18ThroughIndex(kind)
 			case strings.HasPrefix(rp.Clause, "rid"), strings.HasPrefix(rp.Clause, "key-roundtrip"):
 				var r page.RID
 				json.Unmarshal(rp.Input, &r)
@@ -470,4 +486,59 @@ func init() {
 			return "input " + string(rp.Input) + " ok", false
 		},
 	})
+}
+
+// c18IndexRids: row ids over the byte lanes of page id and slot that the index kind can hold (the B-tree value
+// has 2 bytes for the slot).
+func c18IndexRids(kind string) []page.RID {
+	pages := []int32{0, 1, 255, 256, 65535, 65536, 70000, 1<<24 - 1, 1 << 24, math.MaxInt32}
+	slots := []uint32{0, 1, 255, 256, 257, 513, 65535}
+	if kind != "btree" {
+		slots = append(slots, 65536, 1<<24, math.MaxUint32>>1)
+	}
+	var out []page.RID
+	for _, p := range pages {
+		for _, sl := range slots {
+			out = append(out, page.RID{PageID: types.PageID(p), SlotNum: sl})
+		}
+	}
+	return out
+}
+
+// c18ThroughIndex stores each row id under its own key in a real index of the given kind and reads it back
+// through the point lookup and (ordered kinds) through the range iterator.
+func c18ThroughIndex(kind string) *c18Fail {
+	in := newC17(c17Params{Kind: kind, KeyT: "int", Seed: "empty", Levels: "all1"})
+	defer in.Close()
+	rids := c18IndexRids(kind)
+	for i, r := range rids {
+		in.idx.InsertEntry(in.tup(int32(i)), r, nil)
+	}
+	for i, r := range rids {
+		got := in.idx.ScanKey(in.tup(int32(i)), nil)
+		if len(got) != 1 || got[0] != r {
+			return &c18Fail{"rid-through-index/" + kind + "/lookup", fmt.Sprintf("row id %v stored under key %d in a %s index comes back from ScanKey as %v", r, i, kind, got)}
+		}
+	}
+	if kind == "hash" {
+		return nil
+	}
+	it := in.idx.GetRangeScanIterator(nil, nil, nil)
+	for i := 0; i < len(rids)+1; i++ {
+		done, _, _, rid := it.Next()
+		if done {
+			if i != len(rids) {
+				return &c18Fail{"rid-through-index/" + kind + "/range", fmt.Sprintf("the range iterator of the %s index ends after %d of %d entries", kind, i, len(rids))}
+			}
+			return nil
+		}
+		if i >= len(rids) || rid == nil || *rid != rids[i] {
+			want := "nothing"
+			if i < len(rids) {
+				want = fmt.Sprint(rids[i])
+			}
+			return &c18Fail{"rid-through-index/" + kind + "/range", fmt.Sprintf("entry %d of the %s index's range iterator carries row id %v, stored: %s", i, kind, rid, want)}
+		}
+	}
+	return nil
 }
